@@ -40,6 +40,24 @@ CLAIMS = {
         note=LEAN_NOTE + "waker discipline hypothesis (one armed waker per stream, consumed on firing) for the bypass bound; OS/tokio timing not modelled",
         technique="Lean 4 proof (invariants I1/I2/one-token, progress by strong induction, bounded bypass by ticket potential) + exact-schedule differential correspondence",
     ),
+    "C07": dict(
+        engine="world",
+        text="Lean 4 theorems on the frame-list functions the World model runs for REQ/REP/ROUTER: REQ adds/removes exactly one empty delimiter, REP splits after the FIRST empty frame (payload with empty frames untouched), env ++ payload = request, payload never empty, and the chain theorem (any routing prefix of non-empty identities, any payloads: request reaches REP unmodified, reply retraces the route and reaches REQ unmodified). Tie: real REQ and REP with scripted raw peers, exhaustive payload shapes x sizes {0,5,256,70000} x envelope prefixes x degenerate requests; every poll result and wire byte predicted by the model; python Spec oracle independent of the model.",
+        note=LEAN_NOTE + "VecDeque<Bytes> frame operations as list operations; large frames compared by hash",
+        technique="Lean 4 proof (algebraic laws on frame lists, chain composition) + differential correspondence on real sockets over scripted pipes",
+    ),
+    "C08": dict(
+        engine="world",
+        text="Lean 4 theorems on the World model's REQ/REP call functions: out-of-turn send/recv return the WHOLE world unchanged with the message handed back; accepted recv only in phase awaiting -> idle, pending recv stays awaiting (refinement to the alternation automaton); a REP reply touches no pipe other than the requester's (frame lemma). Tie: ALL call sequences to length 6 on a real REQ and length 5/6 on a real REP with two clients, seeded schedules with 1..4 clients; wires of every connection read after every call; reference-automaton oracle.",
+        note=LEAN_NOTE + "scc::HashMap async ops as immediate; one live future per socket",
+        technique="Lean 4 proof (refinement to alternation automaton, frame lemma for routing) + exhaustive call-sequence correspondence",
+    ),
+    "C14": dict(
+        engine="world",
+        text="Lean 4: in the World model the recv future of every fair-queue socket is stateless (a pending poll leaves exactly the freshly-issued future), REQ keeps the request marker in the socket while its recv is pending, and at fair-queue level abandon+reissue is a spurious poll, covered by the conservation invariant for all schedules. Tie (the substance): real recv futures of all 7 socket types polled k=1..3 times and DROPPED at every byte-arrival position of a two-message stream, repeated, then drained — the model must predict every line; oracle: drained sequence = messages on the wire; REQ refuses the second send and returns the first reply.",
+        note=LEAN_NOTE + "futures are dropped between polls only",
+        technique="Lean 4 proof (stateless-future lemmas, REQ marker invariant) + exhaustive cancellation-point correspondence",
+    ),
     "C19": dict(
         engine="endpoint",
         text="Lean 4 theorems over the endpoint parser model (the two regexes' semantics spelled out over List Char): parse s = ok e <-> the declarative grammar of the property (strict, both directions), parse (display e) = ok e for every parsed e (round trip, IPv6 bracketed), the only slicing operation is in range and on char boundaries (total), IP literals become addresses. std::net enters through an explicit structure of laws (hypotheses of the round-trip theorem). Tie: real str::parse::<Endpoint>() + Display + re-parse vs the model, EXHAUSTIVELY over a 17-character alphabet (incl. newline, non-ASCII digit, upper case) to length 4/5 after 5 prefixes, grammar-based and mutated endpoints; the Lean models of std::net parse/print are compared with the real std on sampled addresses and near-valid IPv6/IPv4 texts.",
@@ -86,6 +104,7 @@ def main():
             {"name": "tables", "path": "harness/src/tables.rs -> lean/ZmqVerif/Gen/Tables.lean", "serves_properties": ["C01", "C03", "C04"], "kind_free_text": "finite tables regenerated from the real code's behaviour on every run; theorems re-proved over them by decide"},
             {"name": "codec", "path": "harness/src/codec.rs + lean/Driver/Codec.lean", "serves_properties": ["C01", "C02", "C03"], "kind_free_text": "real ZmqCodec vs the Lean decoder/encoder model over a line protocol; hostile mode with counting allocator and small-stack thread"},
             {"name": "fq", "path": "harness/src/fq.rs + lean/Driver/Fq.lean", "serves_properties": ["C05", "C06"], "kind_free_text": "real FairQueue (via __verif::FairQueueProbe) over scripted streams with window actions and a counting receiver waker vs the Lean micro-step model, exact schedule replay"},
+            {"name": "world", "path": "harness/src/world.rs + harness/src/pipe.rs + lean/Driver/World.lean (Model/World.lean)", "serves_properties": ["C07", "C08", "C14"], "kind_free_text": "any number of REAL sockets + scripted in-memory pipes attached through the real handshake + user futures polled one poll at a time; the Lean World model replays the same schedule and must predict every line"},
             {"name": "endpoint", "path": "harness/src/endpoint.rs + lean/Driver/Endpoint.lean", "serves_properties": ["C19"], "kind_free_text": "real Endpoint::from_str/Display and std::net vs the Lean endpoint and IP text models"},
             {"name": "spec", "path": "lean/Driver/Spec.lean", "serves_properties": ["C01"], "kind_free_text": "Lean Spec predicates (strict RFC-23 grammar) evaluated on bytes the implementation produced"},
         ],
